@@ -78,10 +78,12 @@ def build_traces(path, tier, seed):
         idx = rng.choice(s1.size, size=min(s1.size, 40), replace=False)
         add({"kind": "lin", "f": enc(f), "g": enc(g), "x": enc_cseq(np.ravel(s1)[idx]), "y": enc_cseq(np.ravel(sy)[idx]), "z": enc_cseq(np.ravel(sz)[idx])},
             {"kind": "lin", "n": n, "f": f, "g": g})
-    big = [100, 200, 257] if tier == "quick" else [200, 256, 400, 511, 512, 777, 1000, 1023, 1024]
-    for n in big:
+    big = [100, 200, 257, 1024] if tier == "quick" else [200, 256, 400, 511, 512, 777, 1000, 1023, 1024]
+    # (length, implementation): chosen independently of the parity; the longest admissible record goes through both
+    plan = [(n, [stockwell.transform, stockwell.transform_w_scipy_fft][int(rng.integers(2))]) for n in big]
+    plan += [(big[-1], f) for f in (stockwell.transform, stockwell.transform_w_scipy_fft) if (big[-1], f) not in plan]
+    for n, fn in plan:
         x, shape = gen.record(rng, n, amp=1.0)
-        fn = stockwell.transform if n % 2 else stockwell.transform_w_scipy_fft
         s1 = np.asarray(fn(x.copy()))
         ncell = 60 if tier == "quick" else 400
         rr = rng.integers(1, s1.shape[0] + 1, size=ncell)
